@@ -61,6 +61,7 @@ type Program struct {
 	fieldWritesCache map[*FuncInfo]map[string]bool
 	nodeWritesCache  map[ast.Node][]nodeWrite
 	resRangeCache    map[*FuncInfo]*resRange
+	resBelowCache map[*FuncInfo]*resBelow
 	nonNilVars       map[*types.Var]bool
 	postcondBusy     bool
 
